@@ -252,7 +252,7 @@ def run(tier):
                   'struct { unsigned u[5]; } y = { .u = U"", .u[4] = 1, .u[0] = 2 };', 'struct { char s[4]; } z = { .s = "abcd", .s[3] = 0 };', 'struct { char s[2][6]; } q = { .s[1] = "x", .s[1][5] = 1, .s[0][5] = 2 };']:
         inputs.append(('strover', otext.encode(), 'stdin'))
         inputs.append(('strover', ('void f(void) { %s }' % otext).encode(), 'stdin'))
-    for dtext in ['#undef F', '#define F(x,y) y x', '#define F 1', '#undef G', '#define G(a) F(a, a)', '#line 7', '#pragma x', '#', '#undef F\n#define F(a, b, c) c', '#if 1']:
+    for dtext in ['#define F(x,y) x y', '#define G(a) F(a, 1)', '#define F(x,y) x y\n#define F(x,y) x y', '#define F(x,y) x y\n#undef F\n#define F(x,y) x y', '#undef F', '#define F(x,y) y x', '#define F 1', '#undef G', '#define G(a) F(a, a)', '#line 7', '#pragma x', '#', '#undef F\n#define F(a, b, c) c', '#if 1']:
         inputs.append(('dirarg', ('#define F(x,y) x y\n#define G(a) F(a, 1)\nint a = F(\n%s\n1,2);\nint b = G(\n%s\n3);\n' % (dtext, dtext)).encode(), 'stdin'))
         inputs.append(('dirarg', ('#define F(x,y) x y\nint a = F(1,\n%s\n2);\nint c = F(1, 2) + F\n%s\n(3, 4);\n' % (dtext, dtext)).encode(), 'stdin'))
     # ill-formed and boundary UTF-8 in literals of every prefix and in character constants (each encoder and decoder path)
